@@ -47,6 +47,13 @@ func c09ShedRun(r *zsim.Run) {
 	// (bucket lengths that divide a second, that do not - 300ms, 60ms, 70ms - and buckets longer than a second)
 	window := zsim.Pick(o, time.Second, 5*time.Second, 500*time.Millisecond, 3*time.Second, 700*time.Millisecond, 15*time.Second)
 	buckets := zsim.Pick(o, 10, 50, 5)
+	// one run in eight: many handlers faster than a millisecond, back to back, on 10ms buckets under a CPU that is
+	// overloaded throughout - hundreds of passes per bucket, so the capacity the window implies lies well above
+	// the handful of callers and nothing may be shed
+	fast := o.Intn(8) == 0
+	if fast {
+		window, buckets = 500*time.Millisecond, 50
+	}
 	threshold := int64(900)
 	var overloadReads []time.Duration
 	overloadUntil := time.Duration(-1)
@@ -200,7 +207,11 @@ func c09ShedRun(r *zsim.Run) {
 		return true
 	}
 
-	scripted := o.Intn(4) == 0
+	scripted := o.Intn(4) == 0 && !fast
+	if fast {
+		forceOverload = true
+		r.Probe("fast_handlers_under_overload")
+	}
 	if scripted {
 		// burst - drain - burst: concurrent passing requests raise the smoothed in-flight count, a long series of
 		// single failing requests lets it decay, then every caller arrives at once while the CPU is overloaded
@@ -265,11 +276,17 @@ func c09ShedRun(r *zsim.Run) {
 			lat = time.Duration(zsim.Pick(o, 300, 100, 700)) * time.Microsecond // faster than a millisecond
 		}
 		failOdds := zsim.Pick(o, 5, 5, 2, 1, 1000)
+		if fast {
+			n, lat, failOdds = 150, 300*time.Microsecond, 1000
+		}
 		r.Go(fmt.Sprintf("caller%d", c), func() {
 			defer func() { done++ }()
 			for i := 0; i < n && !r.Failed(); i++ {
 				if !request(c, lat, o.Intn(failOdds) == failOdds-1) {
 					zsim.Sleep(time.Duration(1+o.Intn(30)) * time.Millisecond)
+					continue
+				}
+				if fast {
 					continue
 				}
 				if gap := zsim.Pick(o, 0, 0, 1, 5, 50, 400); gap > 0 {
